@@ -443,3 +443,62 @@ Proof.
   - inversion Hf; subst. rewrite N.eqb_refl in Hu. simpl in Hu. contradiction.
   - destruct (tid y =? tid x) eqn:Eid; simpl in Hu; [contradiction|]. destruct Hu as [<-|Hu]; auto.
 Qed.
+
+(* ---------------- replacement ---------------- *)
+Theorem replacement_needs_fee_and_evicts_everywhere : forall c t v pub ch p rid, cfg_ok c -> PoolInv c p ->
+  o_replaced (snd (pool_add c t v pub ch p)) = Some rid ->
+  (exists old, In old (all p) /\ tid old = rid /\ tsender old = tsender t /\
+               (tnonce old = tnonce t -> tfee old + min_diff c <= tfee t) /\
+               (tnonce old <> tnonce t -> tnonce t < tnonce old)) /\
+  (forall u, In u (all (fst (pool_add c t v pub ch p))) -> tid u <> rid) /\
+  In t (all (fst (pool_add c t v pub ch p))).
+Proof.
+  intros c t v pub ch p rid [Hc1 Hc2] HI. unfold pool_add.
+  destruct (existsb (fun u => tid u =? tid t) (all p)) eqn:Edup; [simpl; discriminate|].
+  destruct (tprio t <? min_entrance c); [simpl; discriminate|].
+  destruct ((max_txs c <=? length (all p))%nat && negb (is_nil (queue p)) && (tprio t <=? min_prio (queue p))); [simpl; discriminate|].
+  destruct (is_invalid v); [simpl; discriminate|].
+  destruct (if (max_txs c <=? length (all p))%nat then evict ch p else (p, None)) as [p1 ev] eqn:Epe.
+  assert (Hp1 : PoolInv c p1 /\ (forall u, In u (all p1) -> In u (all p))).
+  { destruct (max_txs c <=? length (all p))%nat eqn:Efull.
+    - assert (p1 = fst (evict ch p)) by (rewrite Epe; auto). subst p1. split; [apply evict_inv; auto|apply evict_all_incl].
+    - inversion Epe; subst. split; auto. }
+  destruct Hp1 as (HI1 & Hincl).
+  assert (Hfresh : forall u, In u (all p1) -> tid u <> tid t).
+  { intros u Hu E. apply Hincl in Hu. rewrite <- not_true_iff_false in Edup. apply Edup. apply existsb_exists.
+    exists u. split; auto. apply N.eqb_eq. auto. }
+  destruct HI1 as [I1 I2 I3 I4 I5 I6 I7 I8].
+  set (L := match afind (tsender t) (accts p1) with Some L => L | None => empty_list end).
+  assert (HLI : ListInv (max_per c) (tsender t) L).
+  { unfold L. destruct (afind (tsender t) (accts p1)) eqn:EL; [apply (I4 _ _ EL)|apply empty_list_inv]. }
+  assert (HLfound : forall n u, afind n (txs L) = Some u -> afind (tsender t) (accts p1) = Some L).
+  { unfold L. destruct (afind (tsender t) (accts p1)) eqn:EL; auto. simpl. intros; discriminate. }
+  destruct (list_add (max_per c) (min_diff c) t false L) as [[L' ok] removed] eqn:Eadd.
+  destruct ok; cbn [negb fst snd]; [|simpl; discriminate].
+  cbn [o_replaced]. intros Hr. subst removed.
+  destruct (list_add_spec _ _ _ _ _ _ _ Hc2 HLI Eadd) as (S1 & S2 & S3 & S4 & S5 & S6 & S7).
+  destruct (S4 _ eq_refl) as (k & w & Hk & Hw & Hor).
+  assert (Hw1 : In w (all p1)) by (eapply I6; eauto).
+  destruct HLI as (HL1 & HL2 & _). destruct (HL1 _ _ Hk) as [Ewn Ews].
+  split; [|split].
+  - exists w. split; [auto|]. split; [auto|]. split; [auto|]. split.
+    + intros En. assert (Hk' : afind (tnonce t) (txs L) = Some w) by (rewrite <- En, Ewn; exact Hk).
+      destruct (S6 _ Hk') as [_ Hfee]. auto.
+    + intros Hnn. assert (Hnone : afind (tnonce t) (txs L) = None).
+      { destruct (afind (tnonce t) (txs L)) as [ex|] eqn:Eex; auto. destruct (S6 _ eq_refl) as [Hrem _].
+        inversion Hrem. assert (In ex (all p1)) by (eapply I6; eauto).
+        assert (ex = w) by (apply (same_id_same_tx (all p1)); auto; congruence). subst ex.
+        destruct (HL1 _ _ Eex). congruence. }
+      (* per-account limit: the evicted one is the sender's highest nonce and the newcomer is below it *)
+      unfold list_add in Eadd. rewrite Hnone in Eadd.
+      destruct (max_per c <? length (nonces L) + 1)%nat; [|inversion Eadd].
+      destruct (max_nonce L <? tnonce t) eqn:Emx; [inversion Eadd|]. apply N.ltb_ge in Emx.
+      destruct (S7 Hnone _ eq_refl) as (Hmne & u0 & Hu0 & Eu0 & _).
+      assert (In u0 (all p1)) by (eapply I6; eauto).
+      assert (u0 = w) by (apply (same_id_same_tx (all p1)); auto; congruence). subst u0.
+      destruct (HL1 _ _ Hu0) as [Emn _]. lia.
+  - intros u Hu. apply in_app_or in Hu. destruct Hu as [Hu|[<-|[]]].
+    + apply remove_id_In in Hu. tauto.
+    + intros E. apply (Hfresh w Hw1). congruence.
+  - apply in_or_app. right. left. auto.
+Qed.
